@@ -43,7 +43,11 @@ def run_case(case):
     want_n = case["n_expected"]
     if n != want_n:
         vs.append(viol(pre + "|len", "len(grid) != n_t*n_o*n_b", case, expected=want_n, observed=n))
-    for g in GETTERS:
+    order = list(GETTERS) + list(GETTERS[::-1])     # every getter twice, second pass in reverse order, same object
+    if case.get("fresh_reverse"):
+        order = list(GETTERS[::-1]) + list(GETTERS)
+    seen_outcome = {}
+    for g in order:
         try:
             r = calls[g]()
             if g == "array":
@@ -67,6 +71,14 @@ def run_case(case):
             vs.append(viol(pre + f"|{g}|{type(e).__name__}", f"{g} failed with internal {type(e).__name__}: {str(e)[:100]}",
                            case, expected="array of correct shape or ValueError", observed=type(e).__name__))
     return {"violations": vs, "outcomes": outcomes, "n": n}
+
+
+def cases_with_orders(cs):
+    out = []
+    for c in cs:
+        out.append(c)
+        out.append(dict(c, fresh_reverse=True))
+    return out
 
 
 def cases(tier):
@@ -102,7 +114,7 @@ def cases(tier):
 
 def run(ctx):
     rep = Report(PROPERTY, "exploration")
-    cs = cases(ctx.tier)
+    cs = cases_with_orders(cases(ctx.tier))
     res = ctx.pmap(run_case, cs, chunksize=2)
     sig = set()
     for c, r in zip(cs, res):
@@ -113,10 +125,10 @@ def run(ctx):
         for g, o in r["outcomes"].items():
             oc[f"{g}:{o}"] = oc.get(f"{g}:{o}", 0) + 1
     rep.coverage = {
-        "evaluations": len(cs) * len(GETTERS),
+        "evaluations": len(cs) * len(GETTERS) * 2,
         "distinct_nontrivial": len(sig),
         "rule": "full box n_b x n_o in 1..5 (thorough: 1..8, all algorithm names) x radial {1,2,3 radii} x "
-                "{shell, Cartesian} mode; five getters per grid; distinct_nontrivial = distinct grid specifications",
+                "{shell, Cartesian} mode; five getters per grid, each called twice on one object in forward-then-reverse order and (second object) reverse-then-forward order; distinct_nontrivial = distinct grid specifications",
         "samples": collect_samples(cs, 5), "outcome_histogram": oc, "exhaustive": True,
         "bound": {"n_b": "1..5", "n_o": "1..5", "n_t": "1..3"},
     }
